@@ -518,6 +518,10 @@ def emit_const(rel, name, spec=None):
     t = rw.flatten_paths(rw.visibility(it.text[it.sig_start:it.end]))
     if not re.match(r'\s*pub\b', t):
         t = re.sub(r'^(\s*)', r'\1pub ', t, count=1)
+    if re.search(r':\s*&\s*(\[|str\b)', t):
+        # the elided lifetime of a const reference is 'static; Verus wants it spelled out
+        t = re.sub(r':\s*&\s*(\[|str\b)', r": &'static \1", t, count=1)
+        rw.log.append(('R0a', "const reference type given its implicit 'static lifetime"))
     em = Emitted()
     em.name, em.mode, em.src, em.src_line = name, 'const', rel, it.line
     em.sha = hashlib.sha256(it.full.encode()).hexdigest()
@@ -527,7 +531,19 @@ def emit_const(rel, name, spec=None):
         if not mm:
             raise GenError('const %s: unexpected shape' % name)
         head = ''.join(tx for (k, a, o, tx) in spec.inserts if k == 'head')
-        t = '%sexec const %s\n%s{\n%s    %s\n}' % (mm.group(1), mm.group(2), spec.contract, head, mm.group(3))
+        contract = spec.contract
+        if '@BYTELEN@' in contract:
+            # length of a byte-string literal initialiser, computed from the source text (so the stated fact follows the code)
+            lit = mm.group(3).strip()
+            try:
+                import ast
+                blen = len(ast.literal_eval(lit))
+            except Exception:
+                raise GenError('const %s: initialiser is not a byte-string literal' % name)
+            contract = contract.replace('@BYTELEN@', str(blen))
+            rw.log.append(('R0d', 'byte length of the literal initialiser of %s computed from the source: %d' % (name, blen)))
+        pre_attr = ''.join('#[verifier::%s]\n' % a for a in spec.attrs)
+        t = '%s%sexec const %s\n%s{\n%s    %s\n}' % (pre_attr, mm.group(1), mm.group(2), contract, head, mm.group(3))
         rw.log.append(('R0d', 'const %s given an ensures clause (initialiser verbatim)' % name))
         em.mode = 'verify'
         em.clauses = count_clauses(spec.contract, {}, spec.inserts)
@@ -580,6 +596,7 @@ class Unit:
         self.verified = []       # fn names verified here
         self.stubbed = []
         self.trusted = []        # textual scan results
+        self.lost = []           # (fn, reason): annotations could not be spliced
 
 
 TRUST_PATTERNS = [r'#\[verifier::external_body\]', r'\bassume_specification\b', r'\bassume\s*\(', r'\badmit\s*\(',
@@ -616,11 +633,20 @@ def generate_unit(unit_name, specs, probe=False):
                 if sp.assumed and mode == 'verify':
                     raise GenError('%s is marked assumed but unit %s verifies it' % (name, unit_name))
                 start = cur_line()
-                txt, em = emit_fn(sp, mode, probe=probe)
+                try:
+                    txt, em = emit_fn(sp, mode, probe=probe)
+                except GenError as e:
+                    if mode != 'verify':
+                        raise
+                    # annotations no longer fit this function: keep its CONTRACT (as a stub) so the rest of the unit
+                    # is still checked, and report the function itself as undecided
+                    u.lost.append((name, str(e)))
+                    txt, em = emit_fn(sp, 'stub', probe=False)
+                    em.mode = 'lost'
                 out.append(txt)
                 em.gen_start, em.gen_end = start, cur_line() - 1
                 u.items.append(em)
-                (u.verified if mode == 'verify' else u.stubbed).append(name)
+                (u.verified if (mode == 'verify' and em.mode != 'lost') else u.stubbed).append(name)
             elif cmd == 'closure-call':
                 sp = specs[d[1]]
                 start = cur_line()
